@@ -35,7 +35,7 @@ def is_bifurcate(topology: Topology, *, exclude_root: bool = True) -> bool:
 
     root = children[-1]
     for k, v in children.items():
-        if len(v) > 1 and (not exclude_root or k in root):
+        if k != -1 and len(v) > 2 and not (exclude_root and k in root):
             return False
 
     return True
@@ -47,17 +47,9 @@ def is_sorted(topology: Topology) -> bool:
     In a sorted topology, parent samples should appear before any child
     samples.
     """
-    flag = True
-
-    def enter(idx: int, parent: int | None) -> int:
-        nonlocal flag
-        if parent is not None and idx < parent:
-            flag = False
-
-        return idx
-
-    traverse(topology=topology, enter=enter)
-    return flag
+    ids, pids = np.asarray(topology[0]), np.asarray(topology[1])
+    has_parent = pids != -1
+    return bool(np.all(pids[has_parent] < ids[has_parent]))
 
 
 def has_cyclic(topology: Topology) -> bool:
